@@ -48,7 +48,8 @@ EXPECTED_PROBES = ["tzlocal_judged", "tzlocal_stale_not_judged",
                    "southern_hemisphere", "half_hour_saving",
                    "two_hour_saving", "rule.J", "rule.N", "rule.M5",
                    "rule_time_24", "malformed_rejected", "gmt_plus",
-                   "no_dst_fixed", "glibc_consulted"]
+                   "no_dst_fixed", "glibc_consulted",
+                   "gmt_named_with_dst_rules"]
 
 REAL = ['dateutil.tz tzstr/tzrange/tzlocal/gettz, the TZ-string parser, relativedelta from /repo/src', "glibc tzset/localtime under the real TZ environment variable (second oracle and tzlocal's back end)", 'real OS threads in the threads class']
 STUB = ['the sequence of process reconfigurations (generated)', 'thread scheduling in the threads class', 'locks (SimLock) of the tzstr factory']
@@ -136,7 +137,8 @@ def generate(cls, rng):
         return dict(specs=[spec, sib], fmt=[fmt, dict(fmt)], kinds=kinds,
                     threads=threads, builds=builds,
                     sched=dict(strategy=strat, seed=rng.getrandbits(32)))
-    specs = [PX.gen_spec(rng) for _ in range(rng.choice([1, 2, 2, 3]))]
+    specs = [PX.gen_spec(rng, gmt_p=0.08)
+             for _ in range(rng.choice([1, 2, 2, 3]))]
     if rng.random() < 0.5:
         # one-aspect variants of the first specification: zones built from
         # them must not share anything that depends on the differing aspect
@@ -145,8 +147,9 @@ def generate(cls, rng):
     if rng.random() < 0.3:
         specs.append(PX.gen_spec(rng, with_dst=False))
     fmt = [dict(always_time=rng.random() < 0.3,
-                explicit_dstoff=rng.choice([None, None, True]))
-           for _ in specs]
+                explicit_dstoff=None if s["std"] in ("GMT", "UTC")
+                else rng.choice([None, None, True]))
+           for s in specs]
     ops = [["set_tz", rng.randrange(len(specs))]]
     handles = 0
     from dsim import depth as DP
@@ -300,8 +303,20 @@ def judge(env, ctx, h, ts):
                 pass
             return False
         ctx.probe("tzlocal_judged")
+    flipped = False
+    if kind in ("tzstr", "gettz"):
+        # dateutil's own (non-POSIX) reading of GMT+h / UTC+h
+        rd = PX.dateutil_reading(spec)
+        if rd is None:
+            ctx.probe("gmt_named_explicit_dst_not_judged")
+            return False
+        if rd is not spec:
+            flipped = True
+            ctx.probe("gmt_named_with_dst_rules" if spec.get("dst")
+                      else "gmt_named_fixed")
+            spec = rd
     want = PX.at(spec, ts)
-    glibc = env.glibc_at(i, ts)
+    glibc = want if flipped else env.glibc_at(i, ts)
     if glibc != want:
         # the two oracles disagree: the harness, not dateutil, is at fault
         raise RuntimeError("POSIX model and glibc disagree for %r at %d: "
@@ -512,6 +527,8 @@ def execute(cls, scenario, ctx):
                 if h not in env.handles:
                     continue
                 spec = env.specs[env.handles[h][2]]
+                if env.handles[h][1] in ("tzstr", "gettz"):
+                    spec = PX.dateutil_reading(spec) or spec
                 if spec.get("dst"):
                     a, b = PX.transitions_utc(spec, year)
                     ts = (a if which == "start" else b) + delta
@@ -529,6 +546,8 @@ def execute(cls, scenario, ctx):
                 if h not in env.handles:
                     continue
                 spec = env.specs[env.handles[h][2]]
+                if env.handles[h][1] in ("tzstr", "gettz"):
+                    spec = PX.dateutil_reading(spec) or spec
                 if not spec.get("dst"):
                     continue
                 a, b = PX.transitions_utc(spec, year)
